@@ -2,8 +2,9 @@
 EXTENDS ActsProps, Json, IOUtils
 
 Raw == ndJsonDeserialize(IOEnv.MODELS)
-MCModels == [i \in DOMAIN Raw |-> Raw[i].spec]
-MCInputSets == [i \in DOMAIN Raw |-> { Raw[i].inputs[j] : j \in DOMAIN Raw[i].inputs }]
+(* LET-bound: otherwise the file is parsed again for every index *)
+MCModels == LET R == Raw IN [i \in DOMAIN R |-> R[i].spec]
+MCInputSets == LET R == Raw IN [i \in DOMAIN R |-> { R[i].inputs[j] : j \in DOMAIN R[i].inputs }]
 
 (* observation variables are not part of the explored state *)
 View == <<procs, queue, spawn, budget>>
